@@ -137,17 +137,20 @@ Print Assumptions C16_includes_instance.
 Theorem C16_keywords_regenerated :
   map (fun p => (fst p, TablesProofs.tok_code (snd p))) keywords = C16Tables.c16_kw_table.
 Proof. exact TablesProofs.keywords_regenerated. Qed.
-(* one NextToken of the model = one NextToken of the compiled lexer on b, "a"b, "1"b, "0x"b (then a blank), every byte b:
+(* one NextToken of the model = one NextToken of the compiled lexer on b, "a"b, "1"b, "0x"b (then a blank) and on the 15
+   families of c16_probe_more (string contents, comment starts and bodies, qualified names, signs, fractions, #include), every byte b:
    first-byte dispatch (blanks, line breaks, punctuation, quote, '#', '/', NUL = end of file), identifier, number and
    hexadecimal continuation classes *)
 Theorem C16_lexer_probes :
   map (TablesProofs.probe_model []) TablesProofs.all_bytes = C16Tables.c16_probe_b /\
   map (TablesProofs.probe_model [97]) TablesProofs.all_bytes = C16Tables.c16_probe_ab /\
   map (TablesProofs.probe_model [49]) TablesProofs.all_bytes = C16Tables.c16_probe_1b /\
-  map (TablesProofs.probe_model [48; 120]) TablesProofs.all_bytes = C16Tables.c16_probe_0xb.
+  map (TablesProofs.probe_model [48; 120]) TablesProofs.all_bytes = C16Tables.c16_probe_0xb /\
+  map (fun f => map (TablesProofs.probe_model2 (fst (fst f)) (snd (fst f))) TablesProofs.all_bytes) C16Tables.c16_probe_more
+    = map snd C16Tables.c16_probe_more.
 Proof.
   exact (conj TablesProofs.probe_first_byte (conj TablesProofs.probe_ident_continuation
-        (conj TablesProofs.probe_number_continuation TablesProofs.probe_hex_continuation))).
+        (conj TablesProofs.probe_number_continuation (conj TablesProofs.probe_hex_continuation TablesProofs.probe_more)))).
 Qed.
 (* integer literals: the model accepts exactly the range the compiled lexer accepts (64 bits) *)
 Theorem C16_int_literal_range_pos : forall s u, uint_of s = Some u -> (forall c r, s = c :: r -> c <> 45 /\ c <> 43) ->
